@@ -43,7 +43,8 @@ REQUIRED_PROBES = ['count_negative', 'count_gt_depth', 'count_eq_depth',
                    'delivered_before_and_after_activation', 'three_version_mix',
                    'nested_depth_3', 'try_wrapped_exempt', 'name_lowercase',
                    'alias_lowercase', 'failed_activation', 'node_restart',
-                   'program_accepted_upgraded', 'upgraded_rejects_legacy_accepts']
+                   'program_accepted_upgraded', 'upgraded_rejects_legacy_accepts',
+                   'merkleval_program_accepted_upgraded']
 PREDS = ['all_equal', 'all_distinct', 'none_empty', 'total_len_le', 'first_is_sha_of_second',
          'count_eq', 'always', 'never']
 
@@ -377,8 +378,20 @@ def gen_program(rng, forks, maxdepth=3):
     tail = b''
     if depth is not None:
         tail = T.compile_script('pop0') * depth + T.compile_script('true')
-    return {'kind': 'program', 'code': (body + tail).hex(), 'try_wrapped': g.try_wrapped,
-            'nest': g.max_nest, 'sure_error': depth is None, 'nests': sorted(set(g.nests))}
+    tx = {'kind': 'program', 'code': (body + tail).hex(), 'try_wrapped': g.try_wrapped,
+          'nest': g.max_nest, 'sure_error': depth is None, 'nests': sorted(set(g.nests))}
+    if rng.chance(1, 6) and len(body + tail) < 900:
+        # the program becomes one committed branch of a merklized script: the
+        # forked code then runs inside OP_MERKLEVAL (real tree builder)
+        leaves = [T.Script('# generated #', body + tail), T.Script('false', T.compile_script('false')),
+                  T.Script('# other #', T.compile_script('push d%d pop0 true' % rng.below(100)))]
+        which = rng.below(3)
+        leaves[0], leaves[which] = leaves[which], leaves[0]
+        lock, wits = T.make_merklized_script_prioritized(leaves)
+        tx['scripts'] = [wits[which].bytes.hex(), lock.bytes.hex()]
+        tx['nests'] = sorted(set(g.nests) | {'merkleval'})
+        tx['nest'] = g.max_nest + 1
+    return tx
 
 
 def gen_plan(run_seed, idx, tier):
@@ -477,6 +490,8 @@ def tx_scripts(tx, forks):
             'depth push d%d equal_verify %s true' % (max(rest, 0), 'pop0 ' * max(rest, 0)))
         return [w, lock], {}
     if k == 'program':
+        if 'scripts' in tx:
+            return [bytes.fromhex(x) for x in tx['scripts']], {}
         return [bytes.fromhex(tx['code'])], {}
     raise ValueError(k)
 
@@ -613,6 +628,8 @@ def execute(plan, run):
                         run.probe('nested_depth_3')
                     if verdict and aset:
                         run.probe('program_accepted_upgraded')
+                        if 'scripts' in tx:
+                            run.probe('merkleval_program_accepted_upgraded')
                 deliveries.setdefault(st['tx'], []).append((n, aset, verdict, i))
                 run.ev('deliver', i, n, st['tx'], sorted(aset), verdict)
                 run.cell(tx['kind'], len(aset), tx.get('nest', 0),
